@@ -749,7 +749,7 @@ func runStandIns(id string) ([]map[string]interface{}, []string) {
 		cmd.Env = append(os.Environ(), "GOFLAGS=-mod=mod", "GOPROXY=off", "GOSUMDB=off", "GOTOOLCHAIN=local")
 		b, _ := cmd.CombinedOutput()
 		os.RemoveAll(tmp)
-		res := map[string]interface{}{"file": filepath.Base(f), "kind": "exhaustive evaluation of the real code (not deductive, not counted as proved)", "wall_s": time.Since(t0).Seconds()}
+		res := map[string]interface{}{"file": filepath.Base(f), "kind": "evaluation of the real code over the input space stated in the file header (exhaustive for C17_frequency, bounded pseudo-random otherwise); not deductive, NOT counted as proved", "wall_s": time.Since(t0).Seconds()}
 		var fails []string
 		done := ""
 		for _, ln := range strings.Split(string(b), "\n") {
@@ -760,6 +760,38 @@ func runStandIns(id string) ([]map[string]interface{}, []string) {
 				done = ln
 			}
 		}
+		// a failure class listed in known_findings.txt (obligation = "standin:<file stem>:<class>") is a recorded
+		// finding: reported as such, not as a violation; every other failing input still is one
+		stem := strings.TrimSuffix(filepath.Base(f), "_test.go.txt")
+		var unexplained, knownHits []string
+		for _, ln := range fails {
+			matched := false
+			for _, k := range loadKnownFindings(filepath.Join(verifDir, "known_findings.txt")) {
+				if k.Fixed || !strings.HasPrefix(k.Obligation, "standin:"+stem+":") {
+					continue
+				}
+				cl := strings.TrimPrefix(k.Obligation, "standin:"+stem+":")
+				if strings.Contains(ln, "class="+cl+" ") {
+					matched = true
+					line := fmt.Sprintf("KNOWN-FINDING: property=%s %s %s", id, k.Obligation, k.Text)
+					dup := false
+					for _, h := range knownHits {
+						dup = dup || h == line
+					}
+					if !dup {
+						knownHits = append(knownHits, line)
+					}
+				}
+			}
+			if !matched {
+				unexplained = append(unexplained, ln)
+			}
+		}
+		for _, h := range knownHits {
+			fmt.Println(h)
+		}
+		res["known_findings"] = knownHits
+		fails = unexplained
 		res["summary"] = done
 		res["failing_inputs"] = fails
 		if done == "" {
